@@ -17,4 +17,5 @@ import NbioVerif.Lemmas.SrcBridgeConn
 #print axioms Gate.c02_gate_prefix_counterexample
 #print axioms FdTable.c02_attribution
 #print axioms FdTable.c02_attribution_init
+#print axioms UdpSess.c02_udp_active_session
 #print axioms ConnFull.src_masks_wellformed
